@@ -6,6 +6,7 @@
   that they behave identically is checked on the real crate. Lemmas: Proofs/Lemmas/PrattRefine.lean.
 -/
 import ChumskyModel.Proofs.Lemmas.PrattRefine
+import ChumskyModel.Proofs.Lemmas.PrattRec
 set_option linter.unusedSimpArgs false
 namespace Chumsky
 
@@ -86,7 +87,48 @@ example :
       | _ => (none, 99, 0)) = (some [45, 120, 94, 121, 94, 120, 43, 121], 0, 8) := by
   decide +kernel
 
+/-! ### recursive expression grammars: `recursive(|e| atom.pratt(ops))`
+
+  `Model/Pratt.lean`, `XEnv`: inside the atom and the operator parsers `.call hole` is the whole expression again
+  (parenthesised sub-expressions, call arguments, ternaries). The machine is the ordinary machine with `pratt_go` at the
+  hole, the reading is the ordinary PEG reading with the textbook algorithm at the hole. -/
+
+/-- **C09 (refinement, recursive tables).** For every table whose atom and operators are arbitrary grammars that may
+    mention the expression itself, at every grammar position, mode, state and fuel: machine ⊑ reading. -/
+theorem c09_recursive_refines (x : XEnv) (fuel : Nat) (env : Env) (m : Mode) (g : G) (st : St)
+    (hm : env.memoOn = false) :
+    Refines m st.errs st.ctx (runX x fuel env m g st) (pegX x fuel env g st.ss st.ctx) :=
+  runX_refines x fuel env m g st hm
+
+theorem c09_recursive_parse (x : XEnv) (fuel : Nat) (env : Env) (m : Mode) (hm : env.memoOn = false) :
+    TopRefines m (parseTopX x fuel env m) (pegTopX x fuel env) :=
+  parseTopX_refines x fuel env m hm
+
+/-- every (sub-)expression of the reading, at whatever parenthesis depth, is the textbook algorithm over the reading
+    of its atom / operator parsers, hence a power-respecting tree -/
+theorem c09_recursive_shape (x : XEnv) {n : Nat} {env : Env} {s : SS} {ctx v : Val} {s' : SS} {em : List Emis}
+    (h : pegX x (n + 1) env (.call x.hole) s ctx = .ok v s' em) :
+    ∃ t, tPratt (fun g s => pegX x n env g s ctx) env x.atom x.ops n 0 s = .ok t s' em ∧ t.val = v ∧
+      Shape x.ops 0 t :=
+  pegX_shape x h
+
+/-- non-vacuity: `(x+y)*-(y)` with `+` left/1, `*` left/2, prefix `-`/3 and a parenthesised atom: accepted, whole input
+    consumed, no error; and `(x+y` is rejected with one error -/
+example :
+    let x : XEnv := { hole := 0, atom := .or_ (.oneOf [120, 121]) (.delimitedBy (.call 0) (.just [40]) (.just [41])),
+                      ops := [.infix true 1 (.just [43]), .infix true 2 (.just [42]), .prefix 3 (.just [45])] }
+    (match parseTopX x 60 { toks := [40, 120, 43, 121, 41, 42, 45, 40, 121, 41], memoOn := false } .emit with
+      | .result r f => (r.output.isSome, r.errs.length, f.pos)
+      | _ => (false, 99, 0)) = (true, 0, 10) ∧
+    (match parseTopX x 60 { toks := [40, 120, 43, 121], memoOn := false } .emit with
+      | .result r _ => (r.output.isSome, r.errs.length)
+      | _ => (true, 99)) = (false, 1) := by
+  decide +kernel
+
 #print axioms c09_refines
+#print axioms c09_recursive_refines
+#print axioms c09_recursive_parse
+#print axioms c09_recursive_shape
 #print axioms c09_parse
 #print axioms c09_powers
 #print axioms c09_assoc
